@@ -48,7 +48,7 @@ func (Prop) ID() string { return "C14" }
 
 func (Prop) Size(tier string) int {
 	if tier == "thorough" {
-		return 4000000
+		return 1500000
 	}
 	return 40000
 }
